@@ -33,12 +33,14 @@ const STAGES: &[(&str, StageFn)] = &[
     ("c04.one", c04::one),
     ("c04.file", c04::file),
     ("c04.cli", c04::cli),
+    ("c04.large", c04::large),
     ("c05.sched_exhaustive", c05::sched_exhaustive),
     ("c05.sched_random", c05::sched_random),
     ("c05.free", c05::free),
     ("c05.configs", c05::configs),
     ("c05.cli", c05::cli),
     ("c05.stress", c05::stress),
+    ("c05.manyrecs", c05::manyrecs),
     ("c14.stress", c05::stress),
     ("c06.files", c06::files),
     ("c06.suffixes", c06::suffixes),
@@ -51,6 +53,7 @@ const STAGES: &[(&str, StageFn)] = &[
     ("c08.lib", c08::lib),
     ("c08.cli", c08::cli),
     ("c08.big", c08::big),
+    ("c08.manyrecs", c08::manyrecs),
     ("c09.exhaustive", c09::exhaustive),
     ("c09.random", c09::random),
     ("c10.lib", c10::lib),
@@ -64,6 +67,8 @@ const STAGES: &[(&str, StageFn)] = &[
     ("c11.cli", cgr::cli),
     ("c12.lib", cgr::kcgr_lib),
     ("c12.cli", cgr::kcgr_cli),
+    ("c11.manyrecs", cgr::manyrecs),
+    ("c12.manyrecs", cgr::manyrecs),
     ("c14.mmap", c14::mmap),
     ("c14.unchecked", c14::unchecked),
     ("c15.relations", c15::relations),
